@@ -21,7 +21,7 @@ definitions on the statement CFG; the heap is flow-insensitive; functions are
 context-insensitive except for the listener argument of TreeWalker.walk (one
 context per listener class) and the ``copy`` flag of find_class (constant-propagated
 per call site).  It is a may-analysis: everything it reports is a *possible* write;
-the two reviewed exceptions are frozen in EXCEPTIONS below.
+there is no exception list (see EXCEPTIONS below and DESIGN.md A.5).
 """
 from __future__ import annotations
 
